@@ -979,12 +979,23 @@ class TorControlProtocol(LineOnlyReceiver):
             return True
         return False
 
+    def _line_callback(self):
+        """
+        The per-line callback of the in-flight command, or None. Lines
+        of asynchronous (600-level) replies never belong to a command.
+        """
+        if self.code is not None and self.code >= 600 and self.code < 700:
+            return None
+        if self.command and self.command[2] is not None:
+            return self.command[2]
+        return None
+
     def _start_command(self, line):
         "for FSM"
         # print "startCommand",self.code,line
         self.code = int(line[:3])
         # print "startCommand:",self.code
-        if self.command and self.command[2] is not None:
+        if self._line_callback() is not None:
             self.command[2](line[4:])
         else:
             self.response = line[4:] + '\n'
@@ -1008,7 +1019,7 @@ class TorControlProtocol(LineOnlyReceiver):
 
     def _accumulate_multi_response(self, line):
         "for FSM"
-        if self.command and self.command[2] is not None:
+        if self._line_callback() is not None:
             self.command[2](line)
 
         else:
@@ -1017,7 +1028,7 @@ class TorControlProtocol(LineOnlyReceiver):
 
     def _accumulate_response(self, line):
         "for FSM"
-        if self.command and self.command[2] is not None:
+        if self._line_callback() is not None:
             self.command[2](line[4:])
 
         else:
